@@ -6,6 +6,8 @@ import (
 	"go/types"
 	"strings"
 
+	"golang.org/x/tools/go/types/typeutil"
+
 	"utilverif/internal/core"
 )
 
@@ -244,9 +246,40 @@ func runGpromise(c *Ctx) {
 	if d := c.declByName("R8", "memo", "", "MemoizeFunc"); d != nil {
 		name := core.FuncName(d.Obj)
 		pv := paramVars(d)
+		// the memoized function: the returned closure(s), or the method whose value is returned
+		type memoEntry struct {
+			e     core.Entry
+			lname string
+		}
+		var mes []memoEntry
 		for li, l := range escapingLits(c, d) {
 			lname := sprintf("%s.func#%d", name, li+1)
-			c.Walk("R8", &core.Config{Follow: samePkgFollow(d.Pkg.PkgPath)}, core.Entry{Lit: l, Pkg: d.Pkg, Outer: d, Name: lname}, func(p *core.Path) {
+			mes = append(mes, memoEntry{core.Entry{Lit: l, Pkg: d.Pkg, Outer: d, Name: lname}, lname})
+		}
+		ast.Inspect(d.Decl.Body, func(n ast.Node) bool {
+			if rs, ok := n.(*ast.ReturnStmt); ok {
+				for _, r := range rs.Results {
+					if se, ok := unparen(r).(*ast.SelectorExpr); ok {
+						if sel, ok := d.Pkg.TypesInfo.Selections[se]; ok && sel.Kind() == types.MethodVal {
+							if md := c.Prog.Decl(sel.Obj().(*types.Func).Origin()); md != nil {
+								mes = append(mes, memoEntry{core.Entry{Decl: md}, name + "→" + core.FuncName(md.Obj)})
+							}
+						}
+					}
+				}
+			}
+			return true
+		})
+		if len(mes) == 0 {
+			c.MissingAnchor("R8", name+": the function MemoizeFunc returns (a closure or a method value)")
+		}
+		var fnType types.Type
+		if len(pv) > 0 && pv[0] != nil {
+			fnType = pv[0].Type()
+		}
+		for _, me := range mes {
+			lname := me.lname
+			c.Walk("R8", &core.Config{Follow: samePkgFollow(d.Pkg.PkgPath)}, me.e, func(p *core.Path) {
 				g := prepare(c, p)
 				closeDeferred := false
 				for i, ev := range p.Events {
@@ -255,12 +288,37 @@ func runGpromise(c *Ctx) {
 							closeDeferred = true
 						}
 					}
-					if ev.Kind == core.KCall && ev.Callee == nil && ev.Builtin == "" && len(pv) > 0 && identVar(ev.Call.Fun, ev.Frame) == pv[0] {
-						startedRole := "?started"
-						if v := localWhere(d, d.Decl, func(v *types.Var, _ *ast.Ident) bool { return core.IsAtomicType(v.Type()) }); v != nil {
-							startedRole = c.Role(v)
+					// the call of the function being memoized: a dynamic call of the parameter, or of a field
+					// of the parameter's type that holds it
+					isFnCall := false
+					if ev.Kind == core.KCall && ev.Callee == nil && ev.Builtin == "" && fnType != nil {
+						if identVar(ev.Call.Fun, ev.Frame) == pv[0] {
+							isFnCall = true
+						} else if fv := fieldVar(ev.Call.Fun, ev.Frame); fv != nil && types.Identical(fv.Origin().Type(), fnType) {
+							isFnCall = true
+						} else if t := ev.Frame.Info().TypeOf(ev.Call.Fun); t != nil && fieldVar(ev.Call.Fun, ev.Frame) != nil {
+							if _, isSig := t.Underlying().(*types.Signature); isSig && t.String() == fnType.String() {
+								isFnCall = true
+							}
 						}
-						a.requireGuard("R8", lname+"/call-once", g, i, false, fnot(fld(startedRole+".Swap(true)")), "calling the memoized function")
+					}
+					if isFnCall {
+						// the election: the one atomic Swap(true) the preceding conditions talk about
+						want := fnot(fld("?started.Swap(true)"))
+						var elect []string
+						for _, l := range g.litsBefore(i, false) {
+							ats := map[string]*formula{}
+							l.f.atoms(ats)
+							for n := range ats {
+								if strings.HasPrefix(n, "F(") && strings.HasSuffix(n, ".Swap(true))") {
+									elect = append(elect, n)
+								}
+							}
+						}
+						if len(elect) == 1 {
+							want = fnot(atom(elect[0]))
+						}
+						a.requireGuard("R8", lname+"/call-once", g, i, false, want, "calling the memoized function")
 						a.note("R8", lname+"/close-deferred-before-call", ev.Pos, !closeDeferred, "close(done) is deferred before fn is called", "fn is called before close(done) is deferred: if fn panics the other callers block forever, or the result is published before it is written", p)
 					}
 				}
@@ -544,7 +602,31 @@ func runGconc(c *Ctx) {
 		a.expect("R12", name+"/spawn-under-limit", 1, "running++ in "+fn)
 	}
 	// the worker: the function that retires itself (running--)
-	retirers := declsWhere(c, "conc", incDecOf(running, token.DEC))
+	// (the goroutine body: a declared function started with go; the decrement itself may sit in a
+	// helper it calls inside its critical section)
+	var retirers []*core.FuncDecl
+	for _, d := range pkgDecls(c, "conc") {
+		d := d
+		ast.Inspect(d.Decl.Body, func(n ast.Node) bool {
+			if gs, ok := n.(*ast.GoStmt); ok {
+				if f, _ := typeutil.Callee(d.Pkg.TypesInfo, gs.Call).(*types.Func); f != nil {
+					if wd := c.Prog.Decl(f.Origin()); wd != nil && RelPkg(wd.Pkg.PkgPath) == "conc" && bodyOrCalleesMatch(c, wd, incDecOf(running, token.DEC), 2) {
+						dup := false
+						for _, o := range retirers {
+							dup = dup || o == wd
+						}
+						if !dup {
+							retirers = append(retirers, wd)
+						}
+					}
+				}
+			}
+			return true
+		})
+	}
+	if len(retirers) == 0 {
+		retirers = declsWhere(c, "conc", incDecOf(running, token.DEC))
+	}
 	if len(retirers) == 0 {
 		c.MissingAnchor("R12", "conc: the worker function (running--)")
 	}
